@@ -135,7 +135,7 @@ func c01Property(rt *rapid.T, ev *evid.Rec, o machineOpts, faults bool) {
 			}
 		}
 	}
-	nsteps := rapid.IntRange(2, scale(14, 40)).Draw(rt, "nactions")
+	nsteps := drawActions(rt, 2, 14, 40)
 	for i := 0; i < nsteps; i++ {
 		switch rapid.IntRange(0, 9).Draw(rt, "action") {
 		case 0, 1, 2:
